@@ -697,34 +697,34 @@ where
     __bytes_find(left, pattern.as_bytes())
 }
 pub(crate) const fn __bytes_find(left: &[u8], pattern: &[u8]) -> Option<usize> {
-    let mut matching = pattern;
+    if pattern.len() > left.len() {
+        return None;
+    }
 
-    crate::for_range! {i in 0..left.len() =>
-        match matching {
-            [mb, m_rem @ ..] => {
-                let b = left[i];
+    let last_start = left.len() - pattern.len();
 
-                matching = if b == *mb {
-                    m_rem
-                } else {
-                    match pattern {
-                        // For when the string is "lawlawn" and we are trying to find "lawn"
-                        [mb2, m_rem2 @ ..] if b == *mb2 => m_rem2,
-                        _ => pattern,
-                    }
-                };
-            }
-            [] => {
-                return Some(i - pattern.len())
-            }
+    let mut start = 0;
+    while start <= last_start {
+        if __bytes_match_at(left, start, pattern) {
+            return Some(start);
         }
+        start += 1;
     }
 
-    if matching.is_empty() {
-        Some(left.len() - pattern.len())
-    } else {
-        None
+    None
+}
+
+// Whether `pattern` occurs in `left` at `start`,
+// requires `start + pattern.len() <= left.len()`.
+const fn __bytes_match_at(left: &[u8], start: usize, pattern: &[u8]) -> bool {
+    let mut i = 0;
+    while i < pattern.len() {
+        if left[start + i] != pattern[i] {
+            return false;
+        }
+        i += 1;
     }
+    true
 }
 
 /// Whether `pattern` is inside `left`.
@@ -779,38 +779,22 @@ where
     __bytes_rfind(left, pattern.as_bytes())
 }
 pub(crate) const fn __bytes_rfind(left: &[u8], pattern: &[u8]) -> Option<usize> {
-    let mut matching = pattern;
+    if pattern.is_empty() {
+        return Some(left.len().saturating_sub(1));
+    }
+    if pattern.len() > left.len() {
+        return None;
+    }
 
-    let llen = left.len();
-
-    let mut i = llen;
-
-    while i != 0 {
-        i -= 1;
-
-        match matching {
-            [m_rem @ .., mb] => {
-                let b = left[i];
-
-                matching = if b == *mb {
-                    m_rem
-                } else {
-                    match pattern {
-                        // For when the string is "lawlawn" and we are trying to find "lawn"
-                        [m_rem2 @ .., mb2] if b == *mb2 => m_rem2,
-                        _ => pattern,
-                    }
-                };
-            }
-            [] => return Some(i + (!pattern.is_empty()) as usize),
+    let mut start = left.len() - pattern.len() + 1;
+    while start != 0 {
+        start -= 1;
+        if __bytes_match_at(left, start, pattern) {
+            return Some(start);
         }
     }
 
-    if matching.is_empty() {
-        Some(i)
-    } else {
-        None
-    }
+    None
 }
 
 /// Returns whether `pattern` is contained inside `left`, searching in reverse.
@@ -1072,57 +1056,6 @@ pub(crate) const fn __bytes_trim_end_matches<'a>(mut this: &'a [u8], needle: &[u
     }
 }
 
-macro_rules! elem_then_rem {
-    ($elem:ident, $($rem:tt)*) => { [$elem, $($rem)*] };
-}
-
-macro_rules! rem_then_elem {
-    ($elem:ident, $($rem:tt)*) => { [$($rem)*, $elem] };
-}
-
-macro_rules! byte_find_then {
-    ($slice_order:ident, $this:ident, $needle:ident, |$next:ident| $then:block) => ({
-        if $needle.is_empty() {
-            return Some($this);
-        }
-
-        let mut matching = $needle;
-
-        let mut $next = $this;
-
-        while let $slice_order!(mb, ref m_rem @ ..) = *matching {
-            matching = m_rem;
-
-            if let $slice_order!(b, ref rem @ ..) = *$next {
-                if b != mb {
-                    matching = match *$needle {
-                        // For when the string is "lawlawn" and we are skipping "lawn"
-                        $slice_order!(mb2, ref m_rem2 @ ..) if b == mb2 => {
-                            // This is considered used in half of the macro invocations
-                            #[allow(unused_assignments)]
-                            {$this = $next;}
-                            m_rem2
-                        },
-                        _ => {
-                            // This is considered used in half of the macro invocations
-                            #[allow(unused_assignments)]
-                            {$this = rem;}
-                            $needle
-                        },
-                    };
-                }
-                $next = rem;
-            } else {
-                return None;
-            }
-        }
-
-        $then
-
-        Some($this)
-    });
-}
-
 /// Advances `this` past the first instance of `needle`.
 ///
 /// Return `None` if no instance of `needle` is found.
@@ -1154,8 +1087,14 @@ where
     let needle = PatternNorm::new(needle);
     __bytes_find_skip(this, needle.as_bytes())
 }
-pub(crate) const fn __bytes_find_skip<'a>(mut this: &'a [u8], needle: &[u8]) -> Option<&'a [u8]> {
-    byte_find_then! {elem_then_rem, this, needle, |next| {this = next}}
+pub(crate) const fn __bytes_find_skip<'a>(this: &'a [u8], needle: &[u8]) -> Option<&'a [u8]> {
+    if needle.is_empty() {
+        return Some(this);
+    }
+    match __bytes_find(this, needle) {
+        Some(pos) => Some(slice_from(this, pos + needle.len())),
+        None => None,
+    }
 }
 
 /// Advances `this` up to the first instance of `needle`.
@@ -1189,8 +1128,14 @@ where
     let needle = PatternNorm::new(needle);
     __bytes_find_keep(this, needle.as_bytes())
 }
-pub(crate) const fn __bytes_find_keep<'a>(mut this: &'a [u8], needle: &[u8]) -> Option<&'a [u8]> {
-    byte_find_then! {elem_then_rem, this, needle, |next| {}}
+pub(crate) const fn __bytes_find_keep<'a>(this: &'a [u8], needle: &[u8]) -> Option<&'a [u8]> {
+    if needle.is_empty() {
+        return Some(this);
+    }
+    match __bytes_find(this, needle) {
+        Some(pos) => Some(slice_from(this, pos)),
+        None => None,
+    }
 }
 
 /// Truncates `this` to before the last instance of `needle`.
@@ -1224,8 +1169,14 @@ where
     let needle = PatternNorm::new(needle);
     __bytes_rfind_skip(this, needle.as_bytes())
 }
-pub(crate) const fn __bytes_rfind_skip<'a>(mut this: &'a [u8], needle: &[u8]) -> Option<&'a [u8]> {
-    byte_find_then! {rem_then_elem, this, needle, |next| {this = next}}
+pub(crate) const fn __bytes_rfind_skip<'a>(this: &'a [u8], needle: &[u8]) -> Option<&'a [u8]> {
+    if needle.is_empty() {
+        return Some(this);
+    }
+    match __bytes_rfind(this, needle) {
+        Some(pos) => Some(slice_up_to(this, pos)),
+        None => None,
+    }
 }
 
 /// Truncates `this` to the last instance of `needle`.
@@ -1259,8 +1210,14 @@ where
     let needle = PatternNorm::new(needle);
     __bytes_rfind_keep(this, needle.as_bytes())
 }
-pub(crate) const fn __bytes_rfind_keep<'a>(mut this: &'a [u8], needle: &[u8]) -> Option<&'a [u8]> {
-    byte_find_then! {rem_then_elem, this, needle, |next| {}}
+pub(crate) const fn __bytes_rfind_keep<'a>(this: &'a [u8], needle: &[u8]) -> Option<&'a [u8]> {
+    if needle.is_empty() {
+        return Some(this);
+    }
+    match __bytes_rfind(this, needle) {
+        Some(pos) => Some(slice_up_to(this, pos + needle.len())),
+        None => None,
+    }
 }
 
 /// A const equivalent of
